@@ -43,3 +43,31 @@ Definition gA := mkGen 1 [mkRecord [[97%N]] false (Some 1%N) [eA] None; mkRecord
 Definition gB := mkGen 2 [mkRecord [[97%N]] false (Some 1%N) [eB; eC] None] None [] [] InPlace.
 Example C18_example : map (fun r => (r_path r, map e_fmt (r_entries r))) (flatten_records [gA; gB]) = [([[97%N]], [Md5; Sha1])].
 Proof. reflexivity. Qed.
+
+(* verify -pl: the packing list is loaded as a history of one generation (numbered 1, at the root, no child histories, no
+   chain) and then judged exactly like verify: always an exit code, tree and history untouched, 11 > 21 > 10 > 0, altered
+   = the bytes no longer hash to the first `original` digest the packing list holds for the path, new = no such entry *)
+Theorem C18_verify_pl_total : forall Hb matches C t pl ip ifl, exists c, o_outcome (snd (verify_pl Hb matches C t pl ip ifl)) = Exit c.
+Proof. exact verify_pl_total. Qed.
+Print Assumptions C18_verify_pl_total.
+Theorem C18_verify_pl_source_untouched : forall Hb matches C t pl ip ifl,
+  fst (verify_pl Hb matches C t pl ip ifl) = t /\ o_ops (snd (verify_pl Hb matches C t pl ip ifl)) = [] /\
+  o_written (snd (verify_pl Hb matches C t pl ip ifl)) = [].
+Proof. exact verify_pl_leaves_tree. Qed.
+Print Assumptions C18_verify_pl_source_untouched.
+Theorem C18_verify_pl_exit_code : forall Hb matches C t g ip ifl,
+  let o := snd (verify_pl Hb matches C t (Some g) ip ifl) in
+  o_outcome o = Exit (match o_mismatch o, o_new o, o_missing o with
+                      | _ :: _, _, _ => 11 | [], _ :: _, _ => 21 | [], [], _ :: _ => 10 | [], [], [] => 0 end)%Z.
+Proof. exact verify_pl_exit_selection. Qed.
+Print Assumptions C18_verify_pl_exit_code.
+Theorem C18_verify_pl_reports : forall Hb matches C t g ip ifl,
+  let hs := [pl_history g] in
+  let spec := set_patterns (g_patterns g) ip (pattern_file_lines ifl) in
+  let files := ev_files (events matches C spec [] t) in
+  let o := snd (verify_pl Hb matches C t (Some g) ip ifl) in
+  (forall p, In p (o_mismatch o) <->
+     exists c e, In (p, c) files /\ reference hs p = Some e /\ e_digest e <> digest_text Hb (e_fmt e) c) /\
+  (forall p, In p (o_new o) <-> exists c, In (p, c) files /\ reference hs p = None).
+Proof. exact verify_pl_reports. Qed.
+Print Assumptions C18_verify_pl_reports.
